@@ -335,7 +335,7 @@ def vec_scalar_mul(v, k):
 
 
 # ------------------------------------------------------------------------------------------------ Option / Result
-@ext(r'Option::<.*>::(\w+)$|Result::<.*>::(\w+)$')
+@ext(r'Option::<.*?>::(\w+)(?:::<.*>)?$|Result::<.*?>::(\w+)(?:::<.*>)?$')
 def option_method(eng, callee, a, m, fc):
     name = m.group(1) or m.group(2)
     o = a[0]
